@@ -857,7 +857,14 @@ class Sim:
         # 1. local function with MIR
         if target.get("local") and res is not None:
             f = self.prog.fns.get(target["did"])
-            if f is not None and "body" in f and (self.inline_filter is None or self.inline_filter(f)):
+            if f is not None and "body" in f and self.inline_filter is not None and not self.inline_filter(f):
+                # deliberately opaque callee: logged effect + fresh symbolic result
+                call2 = dict(call)
+                call2["orig"] = {"trait": "opaque::" + ((f.get("impl_self") or {}).get("name") or "fn"), "name": f["name"]}
+                r = self.oracle_call(st, call2)
+                self.finish_call(st, fr, dest, r, term["t"])
+                return
+            if f is not None and "body" in f:
                 m = self.models.find_local_model(self, target, f)
                 if m is None:
                     self.stats["calls_inlined"] += 1
